@@ -353,6 +353,7 @@ func (uc *AnalyzeUseCase) createAnalysisTasks(config AnalyzeUseCaseConfig, files
 					MinLines:            defaultReq.MinLines,
 					MinNodes:            defaultReq.MinNodes,
 					SimilarityThreshold: config.CloneSimilarity,
+					MaxEditDistance:     defaultReq.MaxEditDistance,
 					Type1Threshold:      defaultReq.Type1Threshold,
 					Type2Threshold:      defaultReq.Type2Threshold,
 					Type3Threshold:      defaultReq.Type3Threshold,
